@@ -175,6 +175,13 @@ impl<VM: VMBinding, B: Region> BlockPageResource<VM, B> {
     pub fn release_block(&self, block: B) {
         let pages = 1 << Self::LOG_PAGES;
         debug_assert!(pages as usize <= self.common().accounting.get_committed_pages());
+        #[cfg(mmtk_verif)]
+        crate::util::verif::rt::event(
+            crate::util::verif::rt::ev::PAGES_RELEASE,
+            0,
+            block.start().as_usize(),
+            pages as usize,
+        );
         self.common().accounting.release(pages as _);
         self.block_queue.push(block)
     }
